@@ -16,6 +16,16 @@ CHECKS = {
    "DESIGN.md 6 C16",
    "Trusted: VC generator, go/types, solvers; stdlib/xstrings functions uninterpreted; two Unicode/UTF-8 axioms listed in the contract file; panics from division by zero and Min of nothing are template errors by text/template's recovery.",
    "contract-based deductive verification: VC generation over the real function bodies and FuncMap literals against //@ contracts, discharged by z3/cvc5; object identity of direct bindings by go/types"),
+ "C07": ("proof",
+   "The selection predicate PackageConfig.ShouldGenerateInterface is proved to be the property's iff verbatim (all/listed/include/exclude, regex errors) for all inputs; discovery (NodeVisitor.Visit records exactly interface-like type specs and never enters function bodies; ParsePackages turns exactly package-level named interface types into candidates, checks Lookup results, fails on load errors), the sub-package filter (Go files, ShouldExcludeSubpkg == exists matching regex, error instead of panic), one mock per configs entry (InterfaceConfig.Initialize) and the recursive expansion loop of RootConfig.Initialize (every non-excluded sub-package is added, configured from the recursive package) are proved with loop invariants. Partial: the AST walk (ast.Walk) and the per-interface expansion in RootApp.Run are assumed/covered elsewhere.",
+   "DESIGN.md 6 C07",
+   "Trusted: VC generator, go/types, solvers; regexp.MatchString pure with error depending on the pattern only; go/packages result shape (axiom loader_syntax); go/types accessors pure; ast.Walk follows the Visitor protocol.",
+   "contract-based deductive verification: VC generation over the real function bodies against //@ contracts (decision-table postcondition, loop invariants, call-site obligations), z3/cvc5"),
+ "C08": ("proof",
+   "The hierarchical merge is proved field by field for the actual fields of config.Config: mergeConfigs is verified with its reflection resolved statically (the loop over the struct's fields is unrolled from go/types; each pointer parameter: the more specific level wins, otherwise a fresh copy of the less specific value, never aliased; slices and typed maps such as replace-type: inherited when unset; map[string]any: merged key by key with the more specific key winning), mergeStringMaps (recursive, loop invariants over a ghost visited set, frame: nothing at or above the destination's level other than the destination changes) and the three Initialize functions (call-site obligations: top level -> package -> interface -> configs entry; loop invariants: every level is reached and ends with every parameter set). Partial: provider load order in NewRootConfig and the read sites in RootApp.Run are not part of this check.",
+   "DESIGN.md 6 C08",
+   "Trusted: VC generator, go/types, solvers; the semantics of the twelve reflect operations used; YAML/koanf decoding yields trees with distinct top-level maps (ghost depth labelling is a precondition).",
+   "contract-based deductive verification with statically resolved reflection: VC generation over the real bodies of mergeConfigs/mergeStringMaps/Initialize against per-field contract schemas generated from go/types, z3/cvc5"),
 }
 
 NOT_APPLICABLE = {
